@@ -233,11 +233,11 @@ Fixpoint is_prefix_b (p s : bytes) : bool :=
 (* str::split with a non-empty pattern *)
 Fixpoint split_on_pat (fuel : nat) (d s cur : bytes) : list bytes :=
   match fuel with
-  | O => [rev cur]
+  | O => [frev cur]
   | S f =>
     match s with
-    | [] => [rev cur]
-    | b :: r => if is_prefix_b d s then rev cur :: split_on_pat f d (skipn (List.length d) s) []
+    | [] => [frev cur]
+    | b :: r => if is_prefix_b d s then frev cur :: split_on_pat f d (skipn (List.length d) s) []
                 else split_on_pat f d r (b :: cur)
     end
   end.
@@ -245,9 +245,9 @@ Fixpoint split_on_pat (fuel : nat) (d s cur : bytes) : list bytes :=
 (* str::split(""): every char boundary, including both ends *)
 Fixpoint utf8_chars (s cur : bytes) : list bytes :=
   match s with
-  | [] => match cur with [] => [] | _ => [rev cur] end
+  | [] => match cur with [] => [] | _ => [frev cur] end
   | b :: r => if (128 <=? b) && (b <=? 191) then utf8_chars r (b :: cur)
-              else match cur with [] => utf8_chars r [b] | _ => rev cur :: utf8_chars r [b] end
+              else match cur with [] => utf8_chars r [b] | _ => frev cur :: utf8_chars r [b] end
   end.
 
 Definition split_str (s d : bytes) : list bytes :=
